@@ -1,0 +1,48 @@
+//go:build verif
+
+package network
+
+// Contracts for the deductive checker in /verif (comment-only; compiled only under the verif tag).
+//
+// Router mailboxes: the contracts below are stated for one critical section (the caller holds c.mu; Lock and
+// Unlock have no effect on the modelled state). They pin what a deposit does to the mailbox of its own
+// correlation identifier and that it touches nothing else.
+
+//@ pure func hasPayload(c *routerCore, cid string, s sharing.ID) bool = has(c.boxes, cid) && has(c.boxes[cid].payloads, s)
+
+// Representation invariant of the mailbox table: no nil boxes, every box exists, one box per identifier.
+//@ pure func boxesWF(c *routerCore) bool = (forall k string :: has(c.boxes, k) ==> c.boxes[k] != nil && allocated(c.boxes[k])) && (forall k1, k2 string :: has(c.boxes, k1) && has(c.boxes, k2) && k1 != k2 ==> c.boxes[k1] != c.boxes[k2])
+
+//@ func (*routerCore).boxFor
+//@   property C11
+//@   requires boxesWF(c)
+//@   ensures boxesWF(c)
+//@   modifies c.boxes, result.payloads, result.poison, result.notify
+//@   ensures result != nil && has(c.boxes, correlationID) && c.boxes[correlationID] == result
+//@   ensures old(has(c.boxes, correlationID)) ==> c.boxes == old(c.boxes) && result.payloads == old(c.boxes[correlationID].payloads) && result.poison == old(c.boxes[correlationID].poison) && result.notify == old(c.boxes[correlationID].notify)
+//@   ensures !old(has(c.boxes, correlationID)) ==> result.poison == nil && result.notify == nil && (forall s sharing.ID :: !has(result.payloads, s))
+//@   ensures !old(has(c.boxes, correlationID)) ==> forall k string :: k != correlationID ==> (has(c.boxes, k) == old(has(c.boxes, k)) && c.boxes[k] == old(c.boxes[k]) && (has(c.boxes, k) ==> c.boxes[k] != result))
+//@   ensures forall k string :: old(has(c.boxes, k)) && k != correlationID ==> c.boxes[k] != result || old(c.boxes[k]) == result
+
+//@ func (*routerCore).failLocked
+//@   property C11
+//@   modifies c.fatal
+//@   ensures old(c.fatal) != nil ==> c.fatal == old(c.fatal)
+//@   ensures old(c.fatal) == nil ==> c.fatal == err
+
+//@ func (*routerCore).deposit
+//@   property C11, C04
+//@   let cid = message.CorrelationID
+//@   requires boxesWF(c)
+//@   ensures boxesWF(c)
+// (1) identical retransmission: absorbed, nothing changes
+//@   ensures old(hasPayload(c, cid, from)) && bytesEq(old(c.boxes[cid].payloads[from]), message.Payload) ==> result && c.boxes[cid].poison == old(c.boxes[cid].poison) && c.boxes[cid].payloads == old(c.boxes[cid].payloads) && c.buffered == old(c.buffered)
+// (2) conflicting retransmission: the mailbox is poisoned, the sender is blamed, the first payload stays
+//@   ensures old(hasPayload(c, cid, from)) && !bytesEq(old(c.boxes[cid].payloads[from]), message.Payload) ==> result && c.boxes[cid].poison != nil && culprit(c.boxes[cid].poison, from) && c.boxes[cid].payloads == old(c.boxes[cid].payloads) && c.buffered == old(c.buffered)
+// (3) first message from this sender under this identifier: stored, counted
+//@   ensures !old(hasPayload(c, cid, from)) && old(c.buffered) < maxReceiveBufferSize ==> result && hasPayload(c, cid, from) && c.boxes[cid].payloads[from] == message.Payload && c.buffered == old(c.buffered) + 1
+// (4) buffer full: fatal error latched, nothing stored
+//@   ensures !old(hasPayload(c, cid, from)) && old(c.buffered) >= maxReceiveBufferSize ==> !result && c.fatal != nil && !hasPayload(c, cid, from) && c.buffered == old(c.buffered)
+// (5) frame: no other (identifier, sender) slot is touched
+//@   ensures forall k string, s sharing.ID :: old(has(c.boxes, k)) && (k != cid || s != from) ==> has(c.boxes, k) && has(c.boxes[k].payloads, s) == old(has(c.boxes[k].payloads, s)) && c.boxes[k].payloads[s] == old(c.boxes[k].payloads[s])
+//@   ensures old(c.fatal) != nil ==> c.fatal == old(c.fatal)
